@@ -165,42 +165,58 @@ def json_facts(repo):
     return out
 
 
+SPLITLINES = '\r\n|[\n\r\x0b\x0c\x1c\x1d\x1e\x85\u2028\u2029]'   # str.splitlines() (CPython docs table) [T1]
+
+
 def linebreak_facts(repo):
-    """C09: in string input only LF, CRLF and CR end a line.  The splitter is the module constant
-    _LINE_BREAK (a compiled pattern) used by lex() for str input; the facts: its language is exactly
-    {CRLF, CR, LF}; CRLF is tried first (one break, not two); lex() splits str input with it."""
+    """C09: in string input only LF, CRLF and CR end a line.  lex() splits str input either with a
+    module-level compiled pattern (X.split(lines)) or with str.splitlines(); the facts: the language
+    of the splitter is exactly {CRLF, CR, LF}, and CRLF is one break, not two."""
     mod = repo.module('penman._lexer')
+    f = mod.func('lex')
+    pat = None
+    how = None
+    for n in ast.walk(f):
+        if not (isinstance(n, ast.Assign) and len(n.targets) == 1 and isinstance(n.targets[0], ast.Name)
+                and n.targets[0].id == 'lines' and isinstance(n.value, ast.Call)
+                and isinstance(n.value.func, ast.Attribute)):
+            continue
+        call = n.value
+        if call.func.attr == 'splitlines' and isinstance(call.func.value, ast.Name) and call.func.value.id == 'lines' \
+                and not call.args and not call.keywords:
+            pat, how = SPLITLINES, 'str.splitlines()'
+        elif call.func.attr == 'split' and isinstance(call.func.value, ast.Name) and len(call.args) == 1 \
+                and isinstance(call.args[0], ast.Name) and call.args[0].id == 'lines':
+            c = mod.consts.get(call.func.value.id)
+            if (isinstance(c, ast.Call) and isinstance(c.func, ast.Attribute) and c.func.attr == 'compile'
+                    and len(c.args) == 1 and isinstance(c.args[0], ast.Constant) and isinstance(c.args[0].value, str)
+                    and not c.keywords):
+                pat, how = c.args[0].value, '%s = re.compile(%r)' % (call.func.value.id, c.args[0].value)
+    if pat is None:
+        raise ValueError('how lex() splits str input into lines is not recognised (neither a compiled literal '
+                         'pattern .split(lines) nor lines.splitlines())')
     out = []
     x = z3.String('x')
-    call = mod.consts.get('_LINE_BREAK')
-    if not (isinstance(call, ast.Call) and isinstance(call.func, ast.Attribute) and call.func.attr == 'compile'
-            and call.args and isinstance(call.args[0], ast.Constant) and len(call.args) == 1 and not call.keywords):
-        raise ValueError('_LINE_BREAK is no longer a pattern compiled from a literal (str input may be split differently)')
-    pat = call.args[0].value
     r = rx.from_python(pat)
     want = z3.Union(z3.Re(z3.StringVal('\r\n')), z3.Re(z3.StringVal('\r')), z3.Re(z3.StringVal('\n')))
-    out.append(Obligation('linebreak:language.1', 'regex', [], z3.Not(z3.InRe(x, z3.Intersect(r, z3.Complement(want)))), {}))
-    out.append(Obligation('linebreak:language.2', 'regex', [], z3.Not(z3.InRe(x, z3.Intersect(want, z3.Complement(r)))), {}))
-    # leftmost alternative wins: CRLF must come before CR
-    tree = rx.parse(pat)
-    items = list(tree)
-    first_alt = None
+    info = {'splitter': how}
+    out.append(Obligation('linebreak:nothing-else-ends-a-line', 'regex', [],
+                          z3.Not(z3.InRe(x, z3.Intersect(r, z3.Complement(want)))), info))
+    out.append(Obligation('linebreak:lf-crlf-cr-end-a-line', 'regex', [],
+                          z3.Not(z3.InRe(x, z3.Intersect(want, z3.Complement(r)))), info))
+    # leftmost alternative wins: a CRLF must be consumed whole by the first alternative that matches at a CR
+    items = [(op, av) for op, av in rx.parse(pat)]
     if len(items) == 1 and items[0][0] is rx.sre_c.BRANCH:
-        first_alt = rx.translate(items[0][1][1][0])
-    elif len(items) == 1 and items[0][0] is rx.sre_c.SUBPATTERN:
-        first_alt = None
-    ok = first_alt is not None
-    goal = z3.BoolVal(False) if not ok else z3.Not(z3.InRe(x, z3.Intersect(
-        z3.Re(z3.StringVal('\r\n')), z3.Complement(first_alt))))
-    out.append(Obligation('linebreak:crlf-is-one-break', 'regex', [], goal, {}))
-    # lex() uses it for str input
-    f = mod.func('lex')
-    uses = any(isinstance(n, ast.Call) and isinstance(n.func, ast.Attribute) and n.func.attr == 'split'
-               and isinstance(n.func.value, ast.Name) and n.func.value.id == '_LINE_BREAK'
-               and len(n.args) == 1 and isinstance(n.args[0], ast.Name) and n.args[0].id == 'lines'
-               for n in ast.walk(f))
-    other = any(isinstance(n, ast.Call) and isinstance(n.func, ast.Attribute) and n.func.attr in ('splitlines',)
-                for n in ast.walk(f))
-    out.append(Obligation('linebreak:lex-splits-str-input-with-it', 'regex', [],
-                          z3.BoolVal(bool(uses and not other)), {}))
+        alts = [rx.translate(b) for b in items[0][1][1]]
+        # every alternative before the first one accepting CRLF must reject "\r" (else CRLF is two breaks)
+        goal = z3.BoolVal(True)
+        conj = []
+        seen_crlf = z3.BoolVal(False)
+        for a in alts:
+            conj.append(z3.Or(seen_crlf, z3.Not(z3.InRe(z3.StringVal('\r'), a))))
+            seen_crlf = z3.Or(seen_crlf, z3.InRe(z3.StringVal('\r\n'), a))
+        goal = z3.And(*conj)
+    else:
+        goal = z3.BoolVal(False)
+    out.append(Obligation('linebreak:crlf-is-one-break', 'regex', [], z3.simplify(goal), dict(info, witness='\r\n')))
     return out
